@@ -14,6 +14,8 @@ thread_local! {
     /// C08 only: a legacy-interface device that nevertheless offers bits in the upper feature word
     /// (the legacy register layouts have the selector registers, so such a device can exist).
     pub static LEGACY_RAW_OFFER: std::cell::Cell<bool> = const { std::cell::Cell::new(false) };
+    /// C08 only: the device does not keep FEATURES_OK set (it refuses the feature subset).
+    pub static REFUSE_FEATURES_OK: std::cell::Cell<bool> = const { std::cell::Cell::new(false) };
 }
 
 /// Fresh world prepared for a driver on transport `kind`.
@@ -26,6 +28,7 @@ pub fn setup_world(kind: TK, offered: u64, config: Vec<u8>, max_queue: u32) {
         w.dev.default_max = max_queue;
         w.dev.gen = 3;
         w.dev.log_events = true;
+        w.dev.no_latch_features_ok = REFUSE_FEATURES_OK.with(|c| c.get());
         if matches!(kind, TK::MmioLegacy) {
             // the legacy page frame number is 32 bits wide
             w.hal.next_dma = 0x0000_0000_8000_0000;
